@@ -3,6 +3,7 @@
    specification checker for open iterators: no step raises, and a yielded
    triple matches the pattern and was in the iterated graph at some moment
    between the creation of the iterator and the yield.  Definitions only.
+   The model follows Memory.__triple_has_context as repaired for finding F10.
 
    A generator frame holds references to inner dicts and snapshotted key lists
    (`list(d.keys())`, `set.copy()`).  Inner dicts are never replaced, so a
@@ -59,8 +60,20 @@ Definition it_expand (m : mem) (k : ikind) (x : N) : list triple :=
   | KSo s o => if idx_has s x o (m_spo m) then [(s, x, o)] else []
   end.
 
-(* ctx in self.__tripleContexts.get(triple, self.__defaultContexts); None = TypeError *)
+(* __triple_has_context(triple, ctx) as repaired for finding F10: own entry, else
+   (only if the triple is still indexed) the default contexts; None = TypeError
+   (`ctx in None`, default contexts not yet set) *)
 Definition has_ctx_live (m : mem) (t : triple) (c : cid) : option bool :=
+  match pd_get triple_eqb t (m_tc m) with
+  | Some d => Some (memb ckey_eqb (Some c) d)
+  | None =>
+      if mem_leaf m t then
+        match m_def m with Some d => Some (memb ckey_eqb (Some c) d) | None => None end
+      else Some false
+  end.
+
+(* the historical test: ctx in tripleContexts.get(triple, defaultContexts) *)
+Definition hist_has_ctx_live (m : mem) (t : triple) (c : cid) : option bool :=
   match pd_get triple_eqb t (m_tc m) with
   | Some d => Some (memb ckey_eqb (Some c) d)
   | None => match m_def m with Some d => Some (memb ckey_eqb (Some c) d) | None => None end
@@ -249,49 +262,3 @@ Fixpoint ispec_run (S : qset) (its : list sit) (ops : list sop) (ob : iobs) : bo
   end.
 
 Definition ispec_ok (c : icase) (ob : iobs) : bool := ispec_run [] [] (ic_ops c) ob.
-
-(* Known finding F10: a triple leaves the store entirely while an iterator over
-   the graph of the store's default contexts (the graph of the first add ever)
-   is open on a pattern that matches it, walks snapshotted key lists with a
-   per-triple context test, and the triple has not been in that graph since the
-   iterator was created. *)
-Definition risky (p : pat) : bool :=
-  match p with
-  | (None, None, None) | (Some _, Some _, Some _) | (Some _, None, Some _) => false
-  | _ => true
-  end.
-
-Definition anywhere (S : qset) (t : triple) : bool := existsb (fun q => triple_eqb (fst q) t) S.
-
-Definition vanished (S S' : qset) : list triple :=
-  filter (fun t => negb (anywhere S' t)) (map fst S).
-
-Definition first_cid (ops : list sop) : option cid :=
-  match filter (fun o => match o with SAdd _ _ | SSet _ _ => true | _ => false end) ops with
-  | SAdd c _ :: _ | SSet c _ :: _ => Some c
-  | _ => None
-  end.
-
-Fixpoint ikf_run (cd : cid) (S : qset) (its : list sit) (ops : list sop) : N :=
-  match ops with
-  | [] => 0%N
-  | o :: r =>
-      match o with
-      | SOpen c p => ikf_run cd S (its ++ [(c, p, sp_content S c)]) r
-      | SNext _ | SDrain _ => ikf_run cd S its r
-      | _ =>
-          let S' := sp_mut S o in
-          let gone := vanished S S' in
-          if existsb (fun x => let '(c, p, W) := x in
-                               N.eqb c cd && risky p
-                               && existsb (fun t => matches p t && negb (memb teq t W)) gone) its
-          then 1%N
-          else ikf_run cd S' (map (widen S') its) r
-      end
-  end.
-
-Definition ikf (c : icase) : N :=
-  match first_cid (ic_ops c) with
-  | Some cd => ikf_run cd [] [] (ic_ops c)
-  | None => 0%N
-  end.
